@@ -22,7 +22,20 @@ impl Val {
             return Val { ty: buf[0], w };
         }
         if T::W > VALW {
-            model::overflow()
+            // feature `valdigest`: a value wider than a Val's payload (e.g. a nested `Vec<Val>`) becomes
+            // an opaque handle: the injective oracle's digest of its flat words (equal values <-> equal
+            // Vals). It cannot be converted back (`to_flat` still reports a capacity overflow).
+            #[cfg(feature = "valdigest")]
+            {
+                if T::W > model::HW {
+                    model::overflow()
+                }
+                let mut buf = [0u64; model::HW];
+                x.put(&mut buf[..T::W]);
+                return Val { ty: T::TY, w: model::hash_oracle(3, T::W as u32, &buf) };
+            }
+            #[cfg(not(feature = "valdigest"))]
+            model::overflow();
         }
         let mut w = [0u64; VALW];
         x.put(&mut w[..T::W]);
@@ -200,7 +213,30 @@ impl<T: IntoVal<Env, Val>> TryIntoVal<Env, Val> for T {
 macro_rules! tuple_args {
     ($($n:ident : $i:tt),*) => {
         impl<$($n: IntoVal<Env, Val>),*> IntoVal<Env, Vec<Val>> for ($($n,)*) {
+            #[allow(unused_assignments, unused_mut, unused_variables)]
             fn into_val(&self, e: &Env) -> Vec<Val> {
+                // feature `valdigest`: an argument tuple with more elements than `CAP` becomes a
+                // ONE-element vector holding the injective oracle's digest of all element Vals
+                // (only equality of argument lists is observable: auth / call logs)
+                #[cfg(feature = "valdigest")]
+                {
+                    let n: usize = <[usize]>::len(&[$($i),*]);
+                    if n > model::CAP {
+                        if n * (1 + VALW) > model::HW {
+                            model::overflow()
+                        }
+                        let mut buf = [0u64; model::HW];
+                        let mut o = 0usize;
+                        $(
+                            let x: Val = self.$i.into_val(e);
+                            <Val as Flat>::put(&x, &mut buf[o..o + 1 + VALW]);
+                            o += 1 + VALW;
+                        )*
+                        let mut v = Vec::new(e);
+                        v.push_back(Val { ty: model::TY_TUPLE, w: model::hash_oracle(4, n as u32, &buf) });
+                        return v;
+                    }
+                }
                 #[allow(unused_mut)]
                 let mut v = Vec::new(e);
                 $( v.push_back(self.$i.into_val(e)); )*
